@@ -869,6 +869,17 @@ where
             }
 
             // ── HORNER_ACC ───────────────────────────────────────────────
+            // The `out` of a lane-0 row is the accumulator the next row's Horner step starts
+            // from. Inactive rows (padding and the zero separators placed before each chain)
+            // carry no other constraint, so pin their `out` to zero: otherwise the first
+            // accumulator of every chain is a free choice of the prover.
+            if lane == 0 {
+                let inactive = AB::Expr::ONE + mult_a;
+                for i in 0..D {
+                    builder.assert_zero(inactive.dup() * out[i]);
+                }
+            }
+
             let next_sel_horner = prep_n.sel_horner;
 
             let next_a = &lane_next.a;
